@@ -20,6 +20,15 @@ def main():
         d = os.path.join(SEEDED, n)
         prop = n.split('-')[0]
         meta = {'id': n, 'property': prop}
+        # a change whose author filed it under one property but which, read strictly, breaks another: seeded/<id>/checked_under
+        # holds "<property id> <reason>" and the change is run against that property's check
+        cu = os.path.join(d, 'checked_under')
+        if os.path.exists(cu):
+            txt = open(cu).read().strip()
+            meta['filed_under_by_its_author'] = prop
+            prop = txt.split()[0]
+            meta['property'] = prop
+            meta['why_checked_under_another_property'] = txt.split(None, 1)[1] if ' ' in txt else ''
         notes = open(os.path.join(d, 'notes.md')).read() if os.path.exists(os.path.join(d, 'notes.md')) else ''
         meta['needs_to_manifest'] = notes[:1500]
         rc, out = sh(f'git -C /repo apply {d}/patch.diff')
